@@ -7,6 +7,8 @@ IDS="${*:-$(ls seeded)}"
 rc=0
 for id in $IDS; do
   prop="$(python3 -c "import json;print(json.load(open('seeded/$id/meta.json'))['property'])")"
+  expect="$(python3 -c "import json;print(json.load(open('seeded/$id/meta.json')).get('caught', True))")"
+  if [ "$expect" = False ]; then echo "SKIPPED $id ($prop): recorded as not reliably caught (see meta.json)"; continue; fi
   out="$(tools/try_mutant.sh "$PWD/seeded/$id/patch.diff" "$prop" quick 2>&1)"
   code="$(echo "$out" | sed -n 's/^try_mutant: check .* exit=//p')"
   cls="$(echo "$out" | grep -m1 '^  class=' | sed 's/^  class=//')"
